@@ -420,6 +420,27 @@ func init() {
 			jb(c, &c01Bytes{Bytes: b, Class: fmt.Sprintf("list:count=%d", cnt), List: true, Txs: cnt})
 		}
 
+		c.Phase("lists-announcing-more-than-they-hold") // the data ends exactly on a transaction boundary (or right behind the count) although more transactions are announced
+		{
+			n := uint64(0)
+			for present := 0; present <= 3; present++ {
+				for _, more := range []int{1, 2, 250, 70000} {
+					for _, ext := range []bool{false, true} {
+						n++
+						if !c.Case(n) {
+							continue
+						}
+						r := c.Rand(n)
+						b := refcodec.AppendVarint(nil, uint64(present+more), 0)
+						for j := 0; j < present; j++ {
+							b = append(b, refcodec.Encode(c01Ref(gen.RandShape(r, smallOpts)), ext && j%2 == 0, nil)...)
+						}
+						jb(c, &c01Bytes{Bytes: b, Class: fmt.Sprintf("list:holds=%d:announces=%d", present, present+more), List: true, Txs: present + more})
+					}
+				}
+			}
+		}
+
 		// ------------------------------------------------------------ truncations
 		c.Phase("truncated")
 		nt := 40
